@@ -34,7 +34,7 @@ Tamper(var) == OfferTampered(CurV, var, CurF) /\ cursor' = (cursor % NT) + 1
 
 Other ==
   \/ \E v \in R(OfferVersions) : Offer(v, 1)
-  \/ \E v \in R(OfferVersions), var \in R(1..Variants), w \in R(1..7) :
+  \/ \E v \in R(OfferVersions), var \in R(1..Variants), w \in R(1..8) :
        CASE w = 1 -> OfferWrongParent(v, var)
          [] w = 2 -> OfferWrongNumber(v, var, "skip")
          [] w = 3 -> IF Len(chain) > 0 THEN OfferWrongNumber(v, var, "repeat") ELSE OfferWrongParent(v, var)
@@ -42,6 +42,7 @@ Other ==
          [] w = 5 -> OfferWrongRoot(v, var, "diff")
          [] w = 6 -> OfferWrongRoot(v, var, "oldroot")
          [] w = 7 -> OfferStaleClassHash(v, var)
+         [] w = 8 -> OfferCommitFails(v, var)
   \/ IF pending = {} \/ (Cardinality(pending) < MaxPending /\ RandomElement({TRUE, FALSE}))
      THEN \E v \in R(OfferVersions), var \in R(1..Variants) : VerifyAhead(v, var)
      ELSE \E b \in R(pending) : StorePending(b)
